@@ -1,0 +1,6 @@
+//go:build !verif
+
+package absnfs
+
+// vhook is a no-op unless the package is built with the "verif" tag (see verif_hooks.go).
+func vhook(ev string, kv ...any) {}
